@@ -137,6 +137,9 @@ func vxLogRequest(a *AuditBroker, ctx context.Context, in *logical.LogInput, hc 
 
 var vxBackendData = map[string]any{"secret_value": "s3cr3t"}
 
+// other harness files (handle_login.go) supply their own backend behaviour
+var vxRouteOverride func(req *logical.Request) (*logical.Response, error)
+
 func vxRoute(r *routing.Router, ctx context.Context, req *logical.Request) (*logical.Response, error) {
 	if req.Operation == logical.RevokeOperation {
 		vxEv("backend-revoke")
@@ -144,6 +147,9 @@ func vxRoute(r *routing.Router, ctx context.Context, req *logical.Request) (*log
 	}
 	vxH.routedAt = vxEv("route")
 	vxH.routed++
+	if vxRouteOverride != nil {
+		return vxRouteOverride(req)
+	}
 	switch vxH.respKind {
 	case 1:
 		return &logical.Response{Data: vxBackendData}, nil
@@ -245,6 +251,7 @@ func vxCarriesBackendData(resp *logical.Response) bool {
 }
 
 func VxHandleRequest() {
+	vxRouteOverride = nil
 	ctx := namespace.RootContext(context.Background())
 	childReq := vxBool("request runs in a child namespace with a token of the parent namespace")
 	if childReq {
